@@ -80,6 +80,11 @@ type sched struct {
 	// badconnTxFirst: the ErrBadConn budget is spent on the first statement executed inside a transaction
 	badconnTxFirst bool
 
+	// holdBack: one prepared-statement execution that is in flight at the driver (the victim) is completed
+	// last - the driver may finish calls in any order, and its completion may depend on the others
+	// (a row lock held by them): nobody else's progress may depend on the victim's completion
+	holdBack    bool
+	victim      *gate
 	lastDump    []string
 	rowErr      map[int]error // error of the worker's last Row() finisher
 	ctlInFlight int           // controller actions (Reset / Close) that were started and have not returned yet
@@ -368,6 +373,60 @@ func (s *sched) run(ctl []ctlAction) (stuck string) {
 					continue
 				}
 				return s.describeStuck()
+			}
+		}
+		if s.holdBack {
+			s.mu.Lock()
+			if s.victim == nil {
+				for _, g := range s.parked {
+					if (g.kind == "stmt-exec" || g.kind == "stmt-query") && !g.tx {
+						s.victim = g
+						s.trace = append(s.trace, "held back until the end: "+g.String())
+						break
+					}
+				}
+			}
+			// move the victim to the end of the parked list and keep it out of the choice
+			if s.victim != nil {
+				for i, g := range s.parked {
+					if g == s.victim {
+						s.parked = append(append(s.parked[:i:i], s.parked[i+1:]...), g)
+						opts--
+						nopt--
+						break
+					}
+				}
+			}
+			s.mu.Unlock()
+			if s.victim != nil && nopt == 0 {
+				if fin >= s.total-1 {
+					// everybody else has returned: now the held-back call completes
+					s.mu.Lock()
+					g := s.victim
+					s.parked = s.parked[:len(s.parked)-1]
+					s.victim, s.holdBack = nil, false
+					s.trace = append(s.trace, "release (held back) "+g.String()+" -> ok")
+					s.mu.Unlock()
+					g.release <- nil
+					continue
+				}
+				// others are neither parked nor finished: give them time, then decide
+				progressed := false
+				for i := 0; i < 140 && !progressed; i++ {
+					select {
+					case <-s.changed:
+						progressed = true
+					case <-time.After(50 * time.Millisecond):
+					}
+				}
+				if progressed {
+					continue
+				}
+				d := s.describeStuck()
+				if strings.HasPrefix(d, "deadlock") {
+					d = "deadlock (the only call in flight at the driver, " + s.victim.String() + ", is completed last): " + strings.TrimPrefix(d, "deadlock: ")
+				}
+				return d
 			}
 		}
 		k := s.choose(nopt)
